@@ -686,6 +686,86 @@ func longHistories(tier string) *core.Family {
 	}
 }
 
+// every Unicode scalar value as a policy id (256 ids per case, alone and inside a longer id):
+// the id-keyed map and its JSON round trip must not depend on what characters an id is made of.
+func scalarIDs() *core.Family {
+	const block = 256
+	return &core.Family{
+		Name: "every-scalar-as-policy-id",
+		Desc: "policy sets whose ids are the Unicode scalar values U+0000..U+10FFFF (256 per case, each alone and as `tenant<c>rule`): Get / Map / All agree with the model; MarshalJSON (and encoding/json) -> UnmarshalJSON into a fresh set and into the set itself reproduces the id -> policy map",
+		N:    0x110000 / block,
+		Run: func(t *core.T, i int64) {
+			if canonErr != nil {
+				return
+			}
+			ps := cedar.NewPolicySet()
+			want := map[cedar.PolicyID]kind{}
+			for r := rune(i * block); r < rune((i+1)*block); r++ {
+				if r >= 0xD800 && r <= 0xDFFF {
+					continue
+				}
+				for v, id := range []cedar.PolicyID{cedar.PolicyID(string(r)), cedar.PolicyID("tenant" + string(r) + "rule")} {
+					k := kind((int(r) + v) % int(nKinds))
+					var p cedar.Policy
+					if err := p.UnmarshalCedar([]byte(kindSrc[k])); err != nil {
+						t.Fail("harness-kind-src", kindSrc[k], "parses", err.Error())
+						return
+					}
+					ps.Add(id, &p)
+					want[id] = k
+				}
+			}
+			in := fmt.Sprintf("ids U+%04X..U+%04X", i*block, (i+1)*block-1)
+			same := func(name string, got *cedar.PolicySet) {
+				m := got.Map()
+				if len(m) != len(want) {
+					t.Fail("scalar-ids:"+name+":size", in, fmt.Sprint(len(want)), fmt.Sprint(len(m)))
+					return
+				}
+				for id, k := range want {
+					p := got.Get(id)
+					if p == nil || m[id] == nil {
+						t.Fail("scalar-ids:"+name+":id-lost", in+fmt.Sprintf(" id %q", string(id)), "present", "absent")
+						return
+					}
+					if txt := string(p.MarshalCedar()); txt != canonText[k] {
+						t.Fail("scalar-ids:"+name+":policy-changed", in+fmt.Sprintf(" id %q", string(id)), canonText[k], txt)
+						return
+					}
+				}
+			}
+			same("built", ps)
+			for _, enc := range []struct {
+				name string
+				f    func() ([]byte, error)
+			}{{"MarshalJSON", ps.MarshalJSON}, {"json.Marshal", func() ([]byte, error) { return json.Marshal(ps) }}} {
+				js, err := enc.f()
+				if err != nil {
+					t.Fail("scalar-ids:"+enc.name+":error", in, "encodes", err.Error())
+					continue
+				}
+				if !json.Valid(js) {
+					t.Fail("scalar-ids:"+enc.name+":invalid-json", in, "valid JSON", "invalid JSON")
+					continue
+				}
+				fresh := cedar.NewPolicySet()
+				if err := fresh.UnmarshalJSON(js); err != nil {
+					t.Fail("scalar-ids:"+enc.name+":does-not-decode", in, "decodes", err.Error())
+					continue
+				}
+				same(enc.name+"->fresh", fresh)
+				if err := ps.UnmarshalJSON(js); err != nil {
+					t.Fail("scalar-ids:"+enc.name+":does-not-decode-into-self", in, "decodes", err.Error())
+					continue
+				}
+				same(enc.name+"->self", ps)
+			}
+			t.Nontrivial()
+			t.AddStates(int64(len(want)))
+		},
+	}
+}
+
 func Check() *core.Check {
 	return &core.Check{
 		ID:    "C20",
@@ -704,7 +784,7 @@ func Check() *core.Check {
 			if tier == "thorough" {
 				depth = 6
 			}
-			return []*core.Family{longHistories(tier), {
+			return []*core.Family{longHistories(tier), scalarIDs(), {
 				Name:   "history-bfs",
 				Desc:   fmt.Sprintf("BFS depth<=%d over %d operations from %d initial states (empty set; documents of 0..12 policies)", depth, len(ops), nInits),
 				N:      nInits,
